@@ -82,6 +82,25 @@ CLAIMS = {
             "that each (test case, output) pair yields exactly one outcome counted once as failed iff validate() is Err or succeeded (detached "
             "counted separately), and the exit mapping: ValidationFailedError iff count_failed > 0, main 50 / 1 / SUCCESS, no process::exit.",
             "Not decided: order of documents inside a directory (read_dir order), that bash executes each expression once.", "§4 C20"),
+    "C07": ("Decides the line classification of CramParser::parse (comment lines never reach the line parser, empty lines only end a test, "
+            "indented lines are body, unindented lines end the test and become the title; all tests look at the raw line; indentation = "
+            "self.indention spaces, default 2), that body, command, expectation and exit-code text flows unmodified except for the stripped "
+            "prefixes, and the pairing that gives every pushed test the Cram defaults (set_testcase_config after every body line and before the "
+            "final end_testcase; config reset only in flush after the push).",
+            "Not decided: title attribution across consecutive `$` commands (the second of two consecutive commands gets an empty title).", "§4 C07"),
+    "C12": ("Decides only the Rust-side wiring and the order/presence tables of the state carrier: one TempDir state directory created before "
+            "the loop and handed to every per-test runner, persist_state=0 exactly for detached test cases, the exclusion list substituted "
+            "and equal to the EXCL rows of its documentation plus scrut internals, every template placeholder substituted, and the template "
+            "statement order (path, source state, conditional EXIT trap saving/restoring $?, dump group with every state-class printer "
+            "redirected to the sourced file, user expression last).",
+            "NOT decided - and this is the bulk of the property: that re-sourcing the dump is transparent in bash for every value, option and "
+            "bash version; the line-based grep filters over multi-line declare -p records. This needs bash, not a static argument over Rust.", "§4 C12"),
+    "C18": ("Decides directory ownership (each of the 8 creating call sites yields a TempDir owned by EnvironmentDirectory::Ephemeral or a live "
+            "local, a path beneath one, or is leaked only under keep_temporary_directories), that leak APIs/process::exit/fs::remove_* occur "
+            "nowhere else, no panic=abort, main returns ExitCode, per-document sub-directories only in the Ephemeral/Kept arms, and the "
+            "environment table: documented variables == variables set (Cram extras on the cram_compat edge), SHELL, SCRUT_TEST=<file>:<line> "
+            "per test case, applied in test/update/create.",
+            "Not decided: uniqueness guarantees of tempfile under concurrent processes; what `shares` means under --work-directory.", "§4 C18"),
 }
 
 PENDING = "static rules for this property are designed (DESIGN.md §4) but not yet implemented in this revision"
